@@ -565,8 +565,7 @@ def _bookmarks_full_i32(ctx, hfn):
     def v2(n, anc2):
         d = n.get('def') or ''
         if n.get('k') in ('mcall', 'call', 'path') and (
-                'parse_number::ParseNumber' in d or d.endswith('::parse_num') or d.endswith('::parse_with_limits')
-                or 'util::parse_number::' in (n.get('full') or '')):
+                'parse_number::ParseNumber' in d or d.endswith('::parse_num') or d.endswith('::parse_with_limits')):
             funnel.append((d, n.get('ln')))
         f = n.get('f') if n.get('k') == 'call' else None
         if isinstance(f, dict):
@@ -579,6 +578,7 @@ def _bookmarks_full_i32(ctx, hfn):
     return True, '', arms[0].get('ln')
 
 
+_bookmarks_full_i32.positive = True       # arm-specific like its sibling above: retried on the callee that holds the arm
 row('C11', EDITOR, 'bookmarks:entries-are-plain-i32', _bookmarks_full_i32)
 def _mode_literals(ctx, hfn):
     """`Mode` accepts exactly the texts "0".."3"; anything else (other numbers, "03", "+2") is an error
